@@ -31,6 +31,7 @@ GEN = ["Debiasers"]
 
 SHIFTS = [0.5, -0.5, 3.0, -3.0, 1e3, -1e3]
 FACTORS = [0.5, 2.0, 10.0, 250.0, 1.0 / 400.0]  # the extreme factors expose a clipped change factor (seeded C02-1)
+DISCRETE_IECDF = ("inverted_cdf", "averaged_inverted_cdf", "closest_observation")
 DEB_FAMILIES = ["LS", "DC", "QM", "ECDFM", "QDM", "SDMabs", "CDFt"]
 ISI_CONFIGS = ["tas_detr", "tas_nodetr", "tas_ks", "tas_nosigtest", "tas_npqm", "tas_hazen", "tas_ela"]
 CDFT_PAIRS = [("linear_interpolation", "linear"), ("step_function", "inverted_cdf"), ("linear_interpolation", "hazen"),
@@ -88,9 +89,22 @@ def gen_series(rng, nprs, kind, trend_kind):
     if trend_kind == "trend":
         f = f + rng.choice([-1, 1]) * rng.choice([0.5, 2.0, 6.0]) * np.arange(dF.size) / 365.0
         h = h + rng.choice([0.0, 0.3]) * np.arange(dH.size) / 365.0
+    if trend_kind == "uniform":  # the "uniform signal" situation: the future run IS the historical run (plus the shift / factor under test)
+        f = h.copy()
+        dF = probes.dates_from(datetime.date(dH[0].year + 40, dH[0].month, 1), dH.size)
     if kind == "mult":  # strictly positive, pr-like magnitudes
         o, h, f = (np.exp((x - 283.0) / 6.0) * 3.0 for x in (o, h, f))
     return (o, h, f), (dO, dH, dF)
+
+
+def shift_tol(c, scale):
+    """tolerance of `out(F + c) - out(F) - c`: float rounding of values of size `scale` -- never more than 0.1 % of the signal for
+    small shifts (a tolerance relative to the magnitude of the variable alone would hide a wrong response to a small signal)"""
+    return min(1e-8 * (1 + abs(c) + scale), max(1e-3 * abs(c), 1e-10 * (1 + scale)))
+
+
+def scale_tol(kf, bmax):
+    return min(1e-8 * (1 + kf) * (1 + bmax), max(1e-3 * abs(kf - 1) * bmax, 1e-10 * (1 + kf) * (1 + bmax)))
 
 
 def run_loc(deb, o, h, f, dates):
@@ -135,7 +149,13 @@ def oracle(rng, n_cases, res, problems):
         name = names[k % len(names)]
         kind, mk = cfs[name]
         nprs = np.random.RandomState(rng.randint(0, 2**31 - 1))
-        trend_kind = rng.choice(["stationary", "trend", "trend"])
+        rnd = k // len(names)  # every configuration meets every kind of future series (4 rounds per quick run)
+        trend_kind = ["trend", "uniform", "stationary", "uniform"][rnd % 4] if rnd < 8 else rng.choice(["stationary", "trend", "trend", "uniform"])
+        if trend_kind == "uniform" and "nonparametric" in name:
+            # non-parametric QuantileMapping evaluates the step ecdf of cm_hist at the detrended future values; with cm_future = cm_hist + c
+            # these ARE the sample points of cm_hist, i.e. the jumps of the step function: (h + c) - c may round to either side.
+            # A float-rounding discontinuity, not a statement about exact shifts (the theorem is about exact arithmetic).
+            trend_kind = "stationary"
         (o, h, f), dates = gen_series(rng, nprs, kind, trend_kind)
         # window modes
         isi = name.startswith("ISIMIP")
@@ -144,6 +164,8 @@ def oracle(rng, n_cases, res, problems):
             w = dict(running_window_mode=rw, running_window_length=rng.choice([31, 61]), running_window_step_length=rng.choice([15, 31]))
         else:
             rw = rng.random() < 0.6
+            if trend_kind == "uniform" and rnd < 8:
+                rw = rnd % 4 == 3  # the uniform signal once window-free (identical samples and fits) and once in seasonal windows
             S = rng.choice([1, 7, 15, 31]) if f.size < 900 else rng.choice([7, 15, 31])
             # windows of at least 15 days: every seasonal window of multi-year daily data then holds obs / cm_hist / cm_future
             # values (the guard of the windowed theorems; a 1-day window on day 366 is empty for a series without leap year)
@@ -171,8 +193,12 @@ def oracle(rng, n_cases, res, problems):
         case = {"config": name, "window": w, "years": y, "extra": e, "trend": trend_kind, "inferred_dates": inferred,
                 "sizes": [int(o.size), int(h.size), int(f.size)], "np_seed_case": k, "seed": C.seed(),
                 "startF": str(dates[2][0])}
+        # half of the cases: both runs on ONE debiaser object, the first result still held by the caller
+        same = (rnd + k) % 2 == 0
+        case["same_instance"] = same
+        deb0 = mk(w, y, e)
         try:
-            base = run_loc(mk(w, y, e), o, h, f, dates_used)
+            base = run_loc(deb0, o, h, f, dates_used)
         except Exception as ex:  # noqa: BLE001
             problems.append((f"{name}: {type(ex).__name__} on well-formed input: {str(ex)[:120]}", {**case, "what": "exception"}))
             continue
@@ -187,25 +213,58 @@ def oracle(rng, n_cases, res, problems):
             if not np.array_equal(ex_out, base):
                 problems.append((f"{name}: inferred dates and the same dates given explicitly (daily from 1950-01-01) give different results "
                                  f"(max diff {float(np.max(np.abs(ex_out - base))):.3g})", {**case, "what": "inferred-vs-explicit"}))
+        base_kept = base.copy()
+
+        def second_run(f2):
+            """the second call (same object or a fresh one); returns (out, problem text | None)"""
+            out_ = run_loc(deb0 if same else mk(w, y, e), o, h, f2, dates_used)
+            if same and out_ is base:
+                return out_, "the second apply_location call on the same debiaser returns the very array object returned by the first call"
+            if same and not np.array_equal(base, base_kept):
+                return out_, ("the result of the first apply_location call, still held by the caller, was modified by the second call on the same "
+                              f"debiaser (max change {float(np.max(np.abs(base - base_kept))):.3g})")
+            return out_, None
+
+        # shifts / factors over many magnitudes: from 1e-6 of the variable's magnitude to 10 standard deviations
+        m_f, sd_f = float(np.mean(np.abs(f))), float(np.std(f))
+        rel_shifts = [1e-6 * m_f, 3e-6 * m_f, 1e-4 * sd_f, 1e-2 * sd_f, 10.0 * sd_f]
         if kind == "add":
-            for c in rng.sample(SHIFTS, 2):
-                out = run_loc(mk(w, y, e), o, h, f + c, dates_used)
-                dev = float(np.max(np.abs(out - base - c)))
-                tol = 1e-8 * (1 + abs(c) + scale)
+            shifts = rng.sample(SHIFTS, 2) + [rng.choice([-1, 1]) * x for x in rng.sample(rel_shifts[:2], 1) + rng.sample(rel_shifts[2:], 1)]
+            for c in shifts:
+                out, alias = second_run(f + c)
+                if alias:
+                    problems.append((f"{name}: {alias}; apply_location(F + {c}) - apply_location(F) evaluates to "
+                                     f"{float(np.max(np.abs(out - base))):.3g} instead of {c}", {**case, "what": "result-aliasing", "c": c}))
+                    break
+                tol = shift_tol(c, scale)
+                devs = np.abs(out - base - c)
+                if e.get("im") in DISCRETE_IECDF and name == "CDFt":
+                    # a discrete inverse-ecdf method is a step function of p, and p = ecdf(F', F') takes the exact grid values k/(n-1):
+                    # where n_obs*p hits an integer the rounding of F + c decides the side of the jump.  Isolated elements (< 1 %) on
+                    # such a float-rounding discontinuity are accepted and counted; the exact statement is the theorem's.
+                    jump = devs > tol
+                    if 0 < jump.sum() <= max(1, devs.size // 100):
+                        res.extra["ties_accepted"] = res.extra.get("ties_accepted", 0) + int(jump.sum())
+                        devs = np.where(jump, 0.0, devs)
+                dev = float(np.max(devs))
                 worst[name] = max(worst.get(name, 0.0), dev)
                 res.count(("shift", name, rw, tuple(sorted(y.items())), tuple(sorted(e.items())), c, trend_kind, inferred), True)
                 if len([x for x in samples if x["config"] == name]) < 1:
                     samples.append({**case, "c": c, "max_dev": dev, "tol": tol})
                 if not dev <= tol:
-                    i = int(np.argmax(np.abs(out - base - c)))
+                    i = int(np.argmax(devs))
                     problems.append((f"{name}: adding c={c} to cm_future changes the output by {float(out[i] - base[i])!r} at step {i} "
                                      f"(max deviation {dev:.3g} > tol {tol:.3g})", {**case, "what": "shift", "c": c, "index": i}))
                     break
         else:
-            for kf in rng.sample(FACTORS[:3], 1) + rng.sample(FACTORS[3:], 1):
-                out = run_loc(mk(w, y, e), o, h, f * kf, dates_used)
+            for kf in rng.sample(FACTORS[:3], 1) + rng.sample(FACTORS[3:], 1) + [1.0 + rng.choice([-1, 1]) * rng.choice([1e-6, 3e-5, 1e-3])]:
+                out, alias = second_run(f * kf)
+                if alias:
+                    problems.append((f"{name}: {alias}; apply_location(k F) / apply_location(F) evaluates to 1 instead of k={kf}",
+                                     {**case, "what": "result-aliasing", "k": kf}))
+                    break
                 dev = float(np.max(np.abs(out - kf * base)))
-                tol = 1e-8 * (1 + kf) * (1 + float(np.abs(base).max()))
+                tol = scale_tol(kf, float(np.abs(base).max()))
                 worst[name] = max(worst.get(name, 0.0), dev)
                 res.count(("scale", name, rw, kf, trend_kind, inferred), True)
                 if len([x for x in samples if x["config"] == name]) < 1:
@@ -219,12 +278,12 @@ def oracle(rng, n_cases, res, problems):
         if name.startswith(("LinearScaling", "DeltaChange")) and not rw:
             res.count(("meanchange", name, trend_kind), True)
             if kind == "add":
-                lhs, rhs = base.mean() - o.mean(), f.mean() - h.mean()
+                lhs, rhs = base_kept.mean() - o.mean(), f.mean() - h.mean()
                 if abs(lhs - rhs) > 1e-9 * (1 + scale):
                     problems.append((f"{name}: mean(out) - mean(obs) = {lhs!r} but mean(cm_future) - mean(cm_hist) = {rhs!r}",
                                      {**case, "what": "mean-change"}))
             else:
-                lhs, rhs = base.mean() / o.mean(), f.mean() / h.mean()
+                lhs, rhs = base_kept.mean() / o.mean(), f.mean() / h.mean()
                 if abs(lhs - rhs) > 1e-9 * (1 + abs(rhs)):
                     problems.append((f"{name}: mean(out) / mean(obs) = {lhs!r} but mean(cm_future) / mean(cm_hist) = {rhs!r}",
                                      {**case, "what": "mean-change"}))
@@ -510,6 +569,11 @@ def run(tier, res, force_search=False):
         "ISIMIP: additive trend method, no bounds / thresholds (tas, psl, rlds), no scaling by the annual cycle; SSR (CDFt for pr) and censoring (QDM for pr) are outside the property",
         "CDFt: delta_shift additive or no_shift (multiplicative delta shift rescales the signal: Props.C02.cdft_multiplicative_shiftG)",
         "deterministic configurations only",
+        "oracle tolerance: min(1e-8*(1+|c|+scale), max(1e-3*|c|, 1e-10*(1+scale))) -- never more than 0.1 % of a small signal; shifts from 1e-6 of the "
+        "variable's magnitude to 10 standard deviations, factors 1/400 .. 250 and 1 +- 1e-6 .. 1e-3, including cm_future = cm_hist (+ c) exactly",
+        "float-rounding discontinuities accepted and counted (exact arithmetic: the theorems): non-parametric QuantileMapping is not run with cm_future = "
+        "cm_hist + c (the detrended values are the jump points of the step ecdf of cm_hist); CDFt with a discrete iecdf method: < 1 % isolated elements",
+        "half of the oracle's cases run both calls on one debiaser object with the first result still held (must be a different, unchanged array)",
     ]
     lean_ok = C.lean_phase(res, PROP, GEN, TARGETS)
     if tier != "quick" and lean_ok:  # thorough: re-check the compiled declarations with the external kernel
@@ -536,7 +600,7 @@ def run(tier, res, force_search=False):
     res.extra["mismatches"] = {"debiasers": mm[:5], "isimip": [{k: v for k, v in m.items() if k != "line"} for m in mi[:5]]}
 
     # ---- the property's oracle on the real code
-    n_or = 39 if quick else 650
+    n_or = 52 if quick else 650
     if force_search or not lean_ok or mm or mi:
         n_or *= 3
     problems = []
